@@ -17,7 +17,7 @@ def tree_sig(root):
 def check(ctx):
     ctx.rule = ('proof: for an arbitrary parser, handle_file returns the parse of a file that passed the completeness test or the parse of the backup, or fails; the backup is only replaced by a '
                 'complete, parsed file; correspondence: model decision vs the REAL handle_file on observed outcomes (parses? complete? backup present/valid?); search: files written by '
-                'the real Config.save for several configurations, truncated at every byte offset (thorough) or stride + every offset within 12 bytes of a tag boundary and the last 300 bytes (quick), '
+                'the real Config.save for several configurations, truncated at every byte offset (thorough) or stride 97 + the first 700 bytes + every element boundary of the first 3000 bytes (sampled later) + the last 300 bytes (quick), '
                 'with a good backup, without a backup; oracle: load = full configuration (from the backup) or raises; never a partial tree; .backup content unchanged. distinct = (file, offset, backup?)')
     vlib.prove(ctx, MODULES)
     env, protos = xc.setup()
@@ -41,10 +41,12 @@ def check(ctx):
             if ctx.thorough:
                 offsets = list(range(0, n))
             else:
-                offsets = set(range(0, n, 97)) | set(range(max(0, n - 300), n))
+                offsets = set(range(0, n, 97)) | set(range(max(0, n - 300), n)) | set(range(0, min(n, 700)))
                 for i, ch in enumerate(doc):
-                    if ch in '<>' and r.random() < 0.25:
-                        offsets.update(range(max(0, i - 3), min(n, i + 4)))
+                    if ch == '\n' and (i < 3000 or r.random() < 0.3):       # every element boundary early on, sampled later
+                        offsets.update(range(max(0, i - 3), min(n, i + 7)))
+                    elif ch in '<>' and r.random() < 0.1:
+                        offsets.update(range(max(0, i - 2), min(n, i + 3)))
                 offsets = sorted(offsets)
             work = os.path.join(tmp, 'w%d.xml' % k)
             for off in offsets:
